@@ -518,6 +518,13 @@ class EdgeQLSourceGenerator(codegen.SourceGenerator):
         self.write(op)
         if op.isalnum():
             self.write(' (')
+        elif (
+            op == '+'
+            and isinstance(node.operand, qlast.UnaryOp)
+            and node.operand.op == '+'
+        ):
+            # Don't let two unary pluses fuse into the `++` operator.
+            self.write(' ')
         self.visit(node.operand)
         if op.isalnum():
             self.write(')')
